@@ -192,7 +192,15 @@ class Ctx:
         dt = time.time() - t0
         if r.returncode != 0 and allow_fail:
             return {'_rc': r.returncode, '_stderr': r.stderr, '_stdout': r.stdout, '_wall': dt}
-        if r.returncode != 0:
+        if r.returncode < 0 or r.returncode == 255:
+            # the harness process itself was killed by a signal / ended by exit(-1): the code under test crashed in a part of the
+            # enumeration that is not run in isolated children.  That is a finding about the code, not a framework error; what
+            # the step printed before it died is kept.
+            self.exhaustive = False
+            self.incomplete.append('%s: harness process ended with status %d' % (step, r.returncode))
+            self.viols.append({'sig': '%s.harness-died.%s' % (self.prop, step), 'case': '', 'step': step, 'args': list(args), 'noreplay': True,
+                               'detail': 'the enumeration process %s ended with status %d (signal / exit inside the code under test); stderr tail: %s' % (step, r.returncode, r.stderr[-400:].replace('\n', ' | '))})
+        elif r.returncode != 0:
             sys.stderr.write('HARNESS FAILED %s rc=%d\n%s\n%s\n' % (' '.join(cmd), r.returncode, r.stdout[-2000:], r.stderr[-3000:]))
             raise FrameworkError('harness %s exited with %d' % (step, r.returncode))
         local = {}
